@@ -167,6 +167,7 @@ Inductive instr :=
 | ILoop (k : Z) (target : Z)                  (* 0 loop, 1 loope, 2 loopne *)
 | IJcxz (csz : Z) (target : Z)                (* jcxz / jecxz / jrcxz by count-register size *)
 | IShift (o : shop) (sz : Z) (dst : operand) (cnt : operand)    (* cnt: OImm n, or OReg 1 = cl *)
+| IShxd (isl : bool) (sz : Z) (dst : operand) (src : Z) (cnt : operand)   (* shld / shrd dst, src-register, imm8|cl *)
 | IMul (sz : Z) (src : operand)
 | IImul1 (sz : Z) (src : operand)
 | IImul2 (sz : Z) (dst : Z) (src : operand)
@@ -389,6 +390,22 @@ Definition step (m : mode) (next : Z) (i : instr) (s : xstate) : outcome :=
       | Some a, Some c =>
           let '(r, f') := shift o sz a c f in
           ret (option_map (fun s' => set_fl s' f') (wr_op sz dst r s))
+      | _, _ => XFault
+      end
+  | IShxd isl sz dst src cnt =>
+      (* SDM: count masked to 5 (6) bits; count 0 = no operation; count > operand size: destination and
+         flags UNDEFINED (only possible for 16-bit operands) -> this file says nothing (XUnspec) *)
+      match rd_op sz dst s, rd_op 8 cnt s with
+      | Some a, Some c0 =>
+          let c := c0 mod cmask sz in
+          let b := reg_read sz src g in
+          if c =? 0 then ret (wr_op sz dst a s)
+          else if sz <? c then XUnspec
+          else
+            let r := if isl then U sz (a * 2 ^ c + b / 2 ^ (sz - c)) else U sz (a / 2 ^ c + b * 2 ^ (sz - c)) in
+            let cf := if isl then bitb a (sz - c) else bitb a (c - 1) in
+            let of := if c =? 1 then FB (xorb (msb sz r) (msb sz a)) else FU in
+            ret (option_map (fun s' => set_fl s' (fl_arith f (FB cf) of sz r)) (wr_op sz dst r s))
       | _, _ => XFault
       end
   | IMul sz src =>
